@@ -1,9 +1,201 @@
 import Pandora.Drv.Util
+import Pandora.Model.C16
+import Pandora.Spec.C16
+import Pandora.Gen.HclYaml
 
+/-!
+C16 model driver.  Input line of `harness/cmd/c16`: `sx=<spelling seed> mal=<0|1> d=<description tree>`.
+
+The description tree (keys = the names written in HCL) is what gohcl stores into the HCL structs; the driver runs the
+model on the REGENERATED tables — `marshal` (yaml.v2 on `AmmoHCL`) then `decode` (mapstructure into `AmmoConfig`) — and
+prints the predicted record in the canonical dump format of the harness, plus the number of ammo entries
+`config.SpreadNames` yields.  The Spec judges the implementation's observation (HCL vs YAML agreement).
+-/
 namespace Pandora.Drv.C16
-open Pandora.Drv
+open Pandora.Drv Pandora.Go Pandora.Model.C16
 
-/-- stub: replaced when the property's model driver is written -/
-def handle : Handler := fun _ _ => ("-", "skip:not-built")
+def tables : Tables :=
+  ⟨Gen.HclYaml.hclStructs, Gen.HclYaml.cfgStructs, Gen.HclYaml.plugins, Gen.HclYaml.hclRoot, Gen.HclYaml.cfgRoot,
+    Gen.HclYaml.pluginNameKey⟩
+
+/-! ### parsing the tree:  n | s<hex>. | i<dec>. | t | f | [v*] | {(k<hex>.v)*} -/
+
+def takeToDot : List Char → List Char → Option (List Char × List Char)
+  | [], _ => none
+  | '.' :: rest, acc => some (acc.reverse, rest)
+  | c :: rest, acc => takeToDot rest (c :: acc)
+
+def unhexStr (cs : List Char) : Option String := do
+  let bs ← parseHex (String.ofList cs)
+  String.fromUTF8? (ByteArray.mk bs.toArray)
+
+mutual
+def parseV : Nat → List Char → Option (V × List Char)
+  | 0, _ => none
+  | _ + 1, [] => none
+  | fuel + 1, c :: rest =>
+    if c == 'n' then some (.null, rest)
+    else if c == 't' then some (.bool true, rest)
+    else if c == 'f' then some (.bool false, rest)
+    else if c == 's' then do
+      let (h, rest') ← takeToDot rest []
+      let s ← unhexStr h
+      some (.str s, rest')
+    else if c == 'i' then do
+      let (h, rest') ← takeToDot rest []
+      let i ← (String.ofList h).toInt?
+      some (.int i, rest')
+    else if c == '[' then do
+      let (xs, rest') ← parseL fuel rest
+      some (.seq xs, rest')
+    else if c == '{' then do
+      let (kvs, rest') ← parseM fuel rest
+      some (.map kvs, rest')
+    else none
+def parseL : Nat → List Char → Option (List V × List Char)
+  | 0, _ => none
+  | _ + 1, [] => none
+  | fuel + 1, c :: rest =>
+    if c == ']' then some ([], rest)
+    else do
+      let (x, r1) ← parseV fuel (c :: rest)
+      let (xs, r2) ← parseL fuel r1
+      some (x :: xs, r2)
+def parseM : Nat → List Char → Option (List (String × V) × List Char)
+  | 0, _ => none
+  | _ + 1, [] => none
+  | fuel + 1, c :: rest =>
+    if c == '}' then some ([], rest)
+    else if c == 'k' then do
+      let (h, r0) ← takeToDot rest []
+      let k ← unhexStr h
+      let (x, r1) ← parseV fuel r0
+      let (xs, r2) ← parseM fuel r1
+      some ((k, x) :: xs, r2)
+    else none
+end
+
+def parseTree (s : String) : Option V :=
+  match parseV (s.length + 2) s.toList with
+  | some (v, []) => some v
+  | _ => none
+
+/-! ### canonical dump (same format as harness/cmd/c16/dump.go) -/
+
+def hexOf (s : String) : String := toHex s.toUTF8.toList
+
+def sortByKey (es : List (String × String)) : List (String × String) :=
+  es.mergeSort fun a b => decide (a.1 ≤ b.1)
+
+mutual
+/-- plain data (leaf types): always printed -/
+def dumpData : V → String
+  | .null => "nil"
+  | .str s => "s" ++ hexOf s
+  | .int i => "i" ++ toString i
+  | .bool b => if b then "t" else "f"
+  | .seq xs => "[" ++ ",".intercalate (dumpDataL xs) ++ "]"
+  | .map kvs => "{" ++ ",".intercalate ((sortByKey (dumpDataM kvs)).map fun e => e.1 ++ ":" ++ e.2) ++ "}"
+def dumpDataL : List V → List String
+  | [] => []
+  | x :: xs => dumpData x :: dumpDataL xs
+def dumpDataM : List (String × V) → List (String × String)
+  | [] => []
+  | (k, x) :: rest => (hexOf k, dumpData x) :: dumpDataM rest
+end
+
+def joinFields (es : List (String × String)) : String :=
+  "(" ++ ";".intercalate ((sortByKey es).map fun e => e.1 ++ "=" ++ e.2) ++ ")"
+
+mutual
+/-- type-directed dump of a decoded record; `none` = the record carries a decode error marker -/
+def dumpRec (T : Tables) : C16CTy → V → Option String
+  | ty, .map fs =>
+    match ty with
+    | .struct s => (dumpFields T s false fs).map joinFields
+    | .optStruct s => (dumpFields T s false fs).map joinFields
+    | .plugin i =>
+      match (typeOf T.nameKey fs).bind (findPlugin T i) with
+      | none => none
+      | some p => (dumpFields T p.conf true fs).map joinFields
+    | .leaf _ => some (dumpData (.map fs))
+    | .optLeaf _ => some (dumpData (.map fs))
+    | _ => none
+  | ty, .seq xs =>
+    match ty with
+    | .structList s => (dumpElems T (.struct s) xs).map fun l => "[" ++ ",".intercalate l ++ "]"
+    | .pluginList i => (dumpElems T (.plugin i) xs).map fun l => "[" ++ ",".intercalate l ++ "]"
+    | .leaf _ => some (dumpData (.seq xs))
+    | .optLeaf _ => some (dumpData (.seq xs))
+    | _ => none
+  | ty, v =>
+    match ty with
+    | .leaf _ => some (dumpData v)
+    | .optLeaf _ => some (dumpData v)
+    | _ => none
+def dumpFields (T : Tables) (s : String) (isP : Bool) : List (String × V) → Option (List (String × String))
+  | [] => some []
+  | (k, x) :: rest =>
+    if isP && k == T.nameKey then
+      match dumpFields T s isP rest with
+      | none => none
+      | some es => some ((k, dumpData x) :: es)
+    else
+      match (cFields T s).find? (fun g => g.go == k) with
+      | none => none
+      | some g =>
+        match dumpRec T g.ty x, dumpFields T s isP rest with
+        | some d, some es => some ((k, d) :: es)
+        | _, _ => none
+def dumpElems (T : Tables) (ty : C16CTy) : List V → Option (List String)
+  | [] => some []
+  | x :: xs =>
+    match dumpRec T ty x, dumpElems T ty xs with
+    | some d, some ds => some (d :: ds)
+    | _, _ => none
+end
+
+/-! ### ammo count -/
+
+def fieldOf (v : V) (k : String) : Option V :=
+  match v with
+  | .map kvs => (kvs.find? (·.1 == k)).map (·.2)
+  | _ => none
+
+def weightOf (sc : V) : Nat :=
+  match fieldOf sc "weight" with
+  | some (.int i) => i.toNat
+  | _ => 0
+
+def scenarioWeights (d : V) : List Nat :=
+  match fieldOf d "scenario" with
+  | some (.seq xs) => xs.map weightOf
+  | _ => []
+
+/-! ### handler -/
+
+def predict (d : V) : String :=
+  match decode tables (marshal tables (complete tables d)) with
+  | none => "H=() Y== A=" ++ toString (spreadTotal (scenarioWeights d))
+  | some r =>
+    match dumpRec tables (.struct tables.cfgRoot) r with
+    | none => "H=ERR Y== A=-"
+    | some s => "H=" ++ s ++ " Y== A=" ++ toString (spreadTotal (scenarioWeights d))
+
+def handle : Handler := fun input impl =>
+  let kv := parseKV input
+  let v := Pandora.Spec.C16.verdict impl
+  match parseTree (getS kv "d") with
+  | none => ("-", "fail:driver:unreadable description")
+  | some d =>
+    if hasMergeKey d then
+      -- what yaml.v2 does to the characters of a scalar is outside the model: no prediction; a disagreement of the two
+      -- front-ends on such a description is reported under its own key
+      ("-", if v == "ok" then v else "fail:merge-key:a map key `<<` written in HCL is marshalled unquoted by yaml.v2 and read back as a YAML merge key (" ++ v ++ ")")
+    else if getS kv "mal" == "1" then
+      -- malformed stream: only the agreement of the two front-ends is judged (validation inside plugin constructors and
+      -- the step resolution of the ammo decoders are outside the model)
+      ("-", v)
+    else (predict d, v)
 
 end Pandora.Drv.C16
